@@ -135,7 +135,7 @@ def parseEv (e : String) : Option SEv :=
     else if body.startsWith "f:" then (parseFrameToks (body.drop 2).toString).map (.frame · r)
     else if body.startsWith "x:" then (parseHex (body.drop 2).toString).map .raw
     else if body.startsWith "p:" then (body.drop 2).toString.toNat?.map .part
-    else if body.startsWith "h" then (body.drop 1).toString.toNat?.map (.bcHave · r)
+    else if body.startsWith "h" ∨ body.startsWith "H" then (body.drop 1).toString.toNat?.map (.bcHave · r)
     else if body.startsWith "o" then
       some (.bcState (if body = "oc" then some true else if body = "ou" then some false else none))
     else if body.startsWith "t" then (body.drop 1).toString.toNat?.map .time
